@@ -58,4 +58,3 @@ func init() {
 		c.Ev.Rule += " Tree and error positions: every Position of parse trees (both grammars, multi-file schema loads) and every location of syntax, load and validation errors must be the offset/line/column of a token start of the file it names, as computed by the position specification; inputs re-rendered with CR/CRLF/LF, BOM, comma, comment (multi-byte) trivia."
 	}
 }
-
